@@ -31,6 +31,7 @@ func genCase(t *rapid.T) Case {
 		mode = awk.Minimal
 	}
 	r := awk.NewRenderer(mode)
+	r.BareLength = true
 	r.Rand = func(n int) int { return rapid.IntRange(0, n-1).Draw(t, "noise") }
 	r.StrSpell = func(s string) (string, bool) {
 		if rapid.IntRange(0, 2).Draw(t, "spell?") == 0 {
